@@ -35,9 +35,10 @@ class Unsupported(Exception):
 
 class St:
     """symbolic state of one path (copy-on-write by explicit copy())"""
-    __slots__ = ("env", "glob", "heap", "conds", "loops", "events")
+    __slots__ = ("env", "glob", "heap", "conds", "loops", "events", "alias")
 
-    def __init__(self, env=None, glob=None, heap=None, conds=None, loops=None, events=None):
+    def __init__(self, env=None, glob=None, heap=None, conds=None, loops=None, events=None, alias=None):
+        self.alias = alias if alias is not None else {}       # local name -> (lvalue expression it was bound to, value then): `a = d["k"]`
         self.env = env if env is not None else {}
         self.glob = glob if glob is not None else {}
         self.heap = heap if heap is not None else {}
@@ -46,7 +47,7 @@ class St:
         self.events = events if events is not None else []     # (exception code term, message, line) of partial operations passed
 
     def copy(self):
-        return St(dict(self.env), dict(self.glob), dict(self.heap), list(self.conds), list(self.loops), list(self.events))
+        return St(dict(self.env), dict(self.glob), dict(self.heap), list(self.conds), list(self.loops), list(self.events), dict(self.alias))
 
     def assume(self, c):
         s = self.copy()
@@ -88,6 +89,8 @@ class LoopRecord:
         self.retv = None
         self.msg = None
         self.node = None
+        self.list_keys = set()     # locals that are lists at loop entry and are only changed by list methods in the body: lists throughout
+        self.str_keys = set()      # locals that are strings at loop entry and are only ever bound to string-valued expressions in the body
 
 
 _uid = itertools.count(1)
@@ -218,6 +221,12 @@ class Exec:
                 ok = [p3]
                 for tgt in s.targets:
                     ok = [q for q0 in ok for q in self.assign(tgt, v, q0)]
+                if len(s.targets) == 1 and isinstance(s.targets[0], ast.Name) and isinstance(s.value, (ast.Subscript, ast.Attribute)) \
+                   and z3.is_expr(v) and not z3.is_bool(v) and not isinstance(getattr(s.value, "slice", None), ast.Slice):
+                    # a local bound to a part of another object: later changes through the local are changes of that object (while both
+                    # still denote the same value)
+                    for q in ok:
+                        q.alias[s.targets[0].id] = (s.value, asV(v).sexpr())
                 res.extend(ok)
             return res
         if isinstance(s, ast.AugAssign):
@@ -351,6 +360,16 @@ class Exec:
 
                 def set_(st, v, name=name):
                     st.env[name] = v
+                other = self._aliased(name, p) if not isinstance(e.ctx, ast.Store) else None
+                if other is not None:
+                    def set2(st, v, name=name, other=other):
+                        st.env[name] = v
+                        other.set(st, v)
+                        self.note_write("local:" + name)
+                        st.alias[name] = (st.alias[name][0], asV(v).sexpr()) if name in st.alias else None
+                        if st.alias.get(name) is None:
+                            st.alias.pop(name, None)
+                    return Loc(other.key, get, set2)
                 return Loc("local:" + name, get, set_)
 
             def gget(st, name=name):
@@ -395,6 +414,28 @@ class Exec:
             return Loc(base.key, sget, sset)       # a write to an element is a write to the container's location
         return None
 
+    def _aliased(self, name, p):
+        """the location a local was bound to (`a = d["k"]`), if both still hold the value they had then"""
+        al = p.alias.get(name)
+        if al is None or name not in p.env or getattr(self, "_in_alias", False):
+            return None
+        expr, sx = al
+        self._in_alias = True
+        try:
+            other = self._loc(expr, p)
+            if other is None:
+                return None
+            cur, oth = p.env[name], other.get(p)
+            if oth is None or isinstance(cur, (PyC, ClassRef, Closure)) or isinstance(oth, (PyC, ClassRef, Closure)):
+                return None
+            if asV(cur).sexpr() != sx or asV(oth).sexpr() != sx:
+                return None
+            return other
+        except Unsupported:
+            return None
+        finally:
+            self._in_alias = False
+
     def note_write(self, key):
         if self.writes is not None:
             self.writes.add(key)
@@ -402,6 +443,7 @@ class Exec:
     def assign(self, tgt, v, p):
         """assign in place on p (already a private copy); returns list of continuing paths"""
         if isinstance(tgt, ast.Name):
+            p.alias.pop(tgt.id, None)
             l = self.loc(tgt, p)
             l.set(p, v)
             self.note_write(l.key)
@@ -455,6 +497,13 @@ class Exec:
                 new = PyC({"Add": lambda a, b: a + b, "Sub": lambda a, b: a - b, "Mult": lambda a, b: a * b}[opn](cur.v, v.v))
             elif opn == "Add" and isinstance(cur, Tup) and isinstance(v, Tup):
                 new = Tup(cur.items + v.items, cur.kind)
+            elif opn == "Add" and isinstance(v, Tup) and v.kind == "list" and self.listy(cur, p3):
+                # L += [a, b] on a list: L.extend([a, b]), i.e. the elements appended in order
+                new = asV(cur)
+                for it in v.items:
+                    new = app("list_app", new, asV(it))
+            elif opn == "Add" and self.listy(cur, p3) and self.listy(v, p3):
+                new = app("list_cat", asV(cur), asV(v))
             elif opn == "Add" and (T_is_string(cur) or T_is_string(v)):
                 from .terms import as_str_term
                 new = T_strcat([cur if T_is_string(cur) else as_str_term(cur), v if T_is_string(v) else as_str_term(v)])
@@ -744,6 +793,15 @@ class Exec:
                 if isinstance(b, PyC) and isinstance(b.v, str) and isinstance(k, PyC):
                     res.append((PyC(b.v[k.v]), p3))
                     continue
+                sel = self._bool_index(k)
+                if sel is not None and ((isinstance(b, PyC) and isinstance(b.v, str) and len(b.v) >= 2) or (isinstance(b, Tup) and len(b.items) >= 2)):
+                    # "ab"[int(flag)] / (x, y)[flag]: one of the first two elements, by the flag
+                    pick = (lambda i: PyC(b.v[i])) if isinstance(b, PyC) else (lambda i: b.items[i])
+                    for cond, i in ((sel, 1), (z3.Not(sel), 0)):
+                        q = p3.assume(cond)
+                        if self.feasible(q):
+                            res.append((pick(i), q))
+                    continue
                 bv, kv = asV(b), asV(k)
                 if self._lookup_may_fail(bv, kv, k):
                     pk = self.may_raise(p3, code("getitem", bv, kv), None, e.lineno)
@@ -752,6 +810,20 @@ class Exec:
                 if pk is not None:
                     res.append((app("getitem", bv, kv), pk))
         return res
+
+    def _bool_index(self, k):
+        """the flag c of an index that is int(c) / c for a boolean c (IntV(If(c, 1, 0)) or the boolean object itself); None otherwise"""
+        if not z3.is_expr(k):
+            return None
+        if z3.is_bool(k):
+            return k
+        if z3.is_app(k) and k.decl().name() == "IntV" and z3.is_app(k.arg(0)) and k.arg(0).decl().kind() == z3.Z3_OP_ITE:
+            ite = k.arg(0)
+            if z3.is_int_value(ite.arg(1)) and z3.is_int_value(ite.arg(2)) and ite.arg(1).as_long() == 1 and ite.arg(2).as_long() == 0:
+                return ite.arg(0)
+        if z3.is_app(k) and k.decl().kind() == z3.Z3_OP_ITE and k.arg(1).eq(TRUE) and k.arg(2).eq(FALSE):
+            return k.arg(0)
+        return None
 
     def _lookup_may_fail(self, bv, kv, k):
         """dictionary-style lookups (string keys, the module tables, dict displays) can raise KeyError and are tracked as events;
@@ -819,8 +891,11 @@ class Exec:
             # comprehension variables do not leak
             for g in e.generators:
                 for nm in ast.walk(g.target):
-                    if isinstance(nm, ast.Name) and nm.id not in p.env:
-                        q2.env.pop(nm.id, None)
+                    if isinstance(nm, ast.Name):
+                        if nm.id in p.env:
+                            q2.env[nm.id] = p.env[nm.id]          # an outer variable of the same name is untouched (own scope)
+                        else:
+                            q2.env.pop(nm.id, None)
             res.append((v, q2))
         return res
 
@@ -829,9 +904,85 @@ class Exec:
         """value iterated over -> (V term of the sequence, function binding the loop target to an element)"""
         return asV(itv)
 
+    def _indexed_loop(self, s):
+        """`for i in range(len(X)): ... X[i] ...` with i used only to index X, X a name / attribute chain that the body does not assign:
+        the element loop `for e in X: ... e ...` (the body's calls may not change X under their contracts' frames either: a loop that
+        mutated the list it walks would differ from the element loop, so such a body is left alone)"""
+        cached = getattr(s, "_pyvc_idx", 0)
+        if cached != 0:
+            return cached
+        s._pyvc_idx = None
+        it = s.iter
+        if not (isinstance(s.target, ast.Name) and isinstance(it, ast.Call) and isinstance(it.func, ast.Name) and it.func.id == "range"
+                and len(it.args) == 1 and not it.keywords and isinstance(it.args[0], ast.Call) and isinstance(it.args[0].func, ast.Name)
+                and it.args[0].func.id == "len" and len(it.args[0].args) == 1 and not it.args[0].keywords):
+            return None
+        X = it.args[0].args[0]
+        n = X
+        while isinstance(n, ast.Attribute) or (isinstance(n, ast.Subscript) and isinstance(n.slice, ast.Constant)):
+            n = n.value
+        if not isinstance(n, ast.Name):
+            return None
+        xd, i = ast.dump(X), s.target.id
+        root = n.id
+        body = ast.Module(body=list(s.body), type_ignores=[])
+        uses = [m for m in ast.walk(body) if isinstance(m, ast.Name) and m.id == i]
+        subs = [m for m in ast.walk(body) if isinstance(m, ast.Subscript) and isinstance(m.ctx, ast.Load) and isinstance(m.slice, ast.Name)
+                and m.slice.id == i and ast.dump(m.value) == xd]
+        if not subs or any(not isinstance(u.ctx, ast.Load) for u in uses):
+            return None
+        # X[i] = ... at statement level is allowed when no later statement of the body reads X[i] again: the loop is then
+        # `for i, e in enumerate(X)` with the reads replaced by e
+        stores = [st_ for st_ in s.body if isinstance(st_, ast.Assign) and len(st_.targets) == 1 and isinstance(st_.targets[0], ast.Subscript)
+                  and isinstance(st_.targets[0].slice, ast.Name) and st_.targets[0].slice.id == i and ast.dump(st_.targets[0].value) == xd]
+        store_ids = {id(st_.targets[0]) for st_ in stores}
+        if stores:
+            first = s.body.index(stores[0])
+            later = ast.Module(body=list(s.body[first + 1:]), type_ignores=[])
+            if any(isinstance(m, ast.Subscript) and isinstance(m.slice, ast.Name) and m.slice.id == i and ast.dump(m.value) == xd for m in ast.walk(later)):
+                return None
+            if any(isinstance(m, ast.Subscript) and isinstance(m.ctx, ast.Load) and isinstance(m.slice, ast.Name) and m.slice.id == i
+                   and ast.dump(m.value) == xd for st_ in stores for m in ast.walk(st_.targets[0])):
+                return None
+        if len(subs) + len(stores) != len(uses):
+            return None
+        for m in ast.walk(body):
+            # X (or its root) rebound, or changed through a method / another item assignment, inside the body
+            if isinstance(m, ast.Name) and m.id == root and isinstance(m.ctx, (ast.Store, ast.Del)):
+                return None
+            if isinstance(m, (ast.Attribute, ast.Subscript)) and isinstance(m.ctx, (ast.Store, ast.Del)) and id(m) not in store_ids \
+               and ast.dump(m.value).startswith(xd[:-1]):
+                return None
+            if isinstance(m, ast.Call) and isinstance(m.func, ast.Attribute) and m.func.attr in MUTATORS and ast.dump(m.func.value) == xd:
+                return None
+            if isinstance(m, (ast.FunctionDef, ast.Lambda)):
+                return None
+        import copy as _copy
+        ev = "__idx%d_%d" % (s.lineno, s.col_offset)
+        ids = {id(m) for m in subs}
+
+        class Rep(ast.NodeTransformer):
+            def visit_Subscript(self, node):
+                if isinstance(node.ctx, ast.Load) and isinstance(node.slice, ast.Name) and node.slice.id == i and ast.dump(node.value) == xd:
+                    return ast.copy_location(ast.Name(id=ev, ctx=ast.Load()), node)
+                return self.generic_visit(node)
+        if stores:
+            tgt = ast.Tuple(elts=[ast.Name(id=i, ctx=ast.Store()), ast.Name(id=ev, ctx=ast.Store())], ctx=ast.Store())
+            itx = ast.Call(func=ast.Name(id="enumerate", ctx=ast.Load()), args=[X], keywords=[])
+        else:
+            tgt, itx = ast.Name(id=ev, ctx=ast.Store()), X
+        new = ast.For(target=ast.copy_location(tgt, s.target), iter=itx, body=[Rep().visit(_copy.deepcopy(b)) for b in s.body], orelse=[])
+        ast.copy_location(new, s)
+        ast.fix_missing_locations(new)
+        s._pyvc_idx = new
+        return new
+
     def forloop(self, s, p):
         if s.orelse:
             raise Unsupported("for/else", s)
+        alt = self._indexed_loop(s)
+        if alt is not None:
+            s = alt
         res = []
         for itv, p2 in self.ev(s.iter, p):
             if isinstance(itv, Tup) and len(itv.items) >= 2 and not all(isinstance(x, PyC) for x in itv.items):
@@ -1040,18 +1191,44 @@ class Exec:
         q = p.copy()
         cin = self.havoc(q, [key] + sorted(targets), "cf")
         elem = fresh("cfelem")
+        canon = z3.Const("ELEM", V)
+        # fusion: iterating a list that is itself a closed form COMP_d(ys) is iterating ys with the element mapped (and filtered) by d
+        stages = [([], elem)]
+        inner_events = []
+        defs = getattr(self.ctx, "comp_defs", None)
+        if defs is None:
+            defs = self.ctx.comp_defs = {}
+        if z3.is_app(xs) and xs.num_args() == 1 and xs.decl().name() in defs and defs[xs.decl().name()]["kind"] == "list":
+            d = defs[xs.decl().name()]
+            xs = xs.arg(0)
+            stages = [([z3.substitute(c, (canon, elem)) for c in cs], z3.substitute(t, (canon, elem)) if t is not None else None) for cs, t in d["items"]]
+            inner_events = list(d["events"])
         n_conds, n_events = len(q.conds), len(q.events)
         q.conds.append(pred("elem_of", xs, elem))
         sub = self.sub_exec(self.side)
         sub.fn_locals, sub.try_depth, sub.pure, sub.loop_hook = self.fn_locals, self.try_depth, self.pure, None
         sub.ret_sink, sub.exc_sinks = [], [[]]
+        body = []
+        skipped = []
         try:
-            body = sub.run_body(s, elem, q)
+            for pre, val in stages:
+                if val is None:
+                    skipped.append(pre)
+                    continue
+                qi = q.copy()
+                qi.conds.extend(pre)
+                if pre and not self.feasible(qi):
+                    continue
+                body.extend(sub.run_body(s, val, qi))
         except Unsupported:
             return None
-        canon = z3.Const("ELEM", V)
         items = []
-        ev_terms = []
+        zitems = []
+        ev_terms = list(inner_events)
+        sub0 = lambda t: z3.substitute(t, (elem, canon))
+        for pre in skipped:
+            items.append((sorted(sub0(c).sexpr() for c in pre), "-"))
+            zitems.append(([sub0(c) for c in pre], None))
         for o in body:
             if o.kind != "next":
                 return None
@@ -1076,6 +1253,7 @@ class Exec:
                 return None
             sub_ = lambda t: z3.substitute(t, (elem, canon))
             items.append((sorted(sub_(c).sexpr() for c in conds), sub_(appended).sexpr() if appended is not None else "-"))
+            zitems.append(([sub_(c) for c in conds], sub_(appended) if appended is not None else None))
             ev_terms.extend(sub_(c).sexpr() for c, _, _ in evs)
         if not any(it[1] != "-" for it in items):
             return None
@@ -1083,19 +1261,28 @@ class Exec:
         comp = app("COMP_" + digest, xs)
         ent = asV(entry)
         kind = "list"
+        if all(self._closed_term(c) for cs, t in zitems for c in cs + ([t] if t is not None else [])):
+            # definition kept for fusion; only when it mentions nothing but the element and path-independent terms of this function
+            defs.setdefault("COMP_" + digest, {"items": zitems, "events": sorted(set(ev_terms)), "kind": None})
         if any(it[1].startswith("(SETITEM") for it in items):
             kind = "set"
         elif any(it[1].startswith("(DICTITEM") for it in items):
             kind = "dict"
-        if kind == "list":
+        if kind == "list" and items == [([], "ELEM")] and not ev_terms and not ent.eq(NIL_LIST):
+            new = app("list_cat", ent, xs)                   # every element appended as it is: L.extend(xs)
+        elif kind == "list":
             new = comp if ent.eq(NIL_LIST) else app("list_cat", ent, comp)
         elif kind == "set":
             new = app("set_of", comp) if ent.eq(NIL_SET) else app("py_or", ent, app("set_of", comp))
         else:
             new = app("dict_of", comp) if ent.eq(NIL_DICT) else app("dict_update", ent, app("dict_of", comp))
+        if "COMP_" + digest in defs and defs["COMP_" + digest]["kind"] is None:
+            defs["COMP_" + digest]["kind"] = kind
         r = p.copy()
         self.loc_by_key(key).set(r, new)
         self.note_write(key)
+        if kind == "list":
+            r.conds.append(pred("is_list", asV(new)))
         # the loop variables keep the last element's components: a function of the loop alone, named by position in the target pattern
         order = [n.id for n in ast.walk(s.target) if isinstance(n, ast.Name)]
         for pos, nm in enumerate(order):
@@ -1146,7 +1333,11 @@ class Exec:
         canon = z3.Const("ELEM", V)
         t = z3.substitute(item, (elem, canon))
         digest = hashlib.sha1(repr(([([], t.sexpr())], [])).encode()).hexdigest()[:14]
-        found = pred("truthy", app("py_any", app("COMP_" + digest, xs)))
+        defs = getattr(self.ctx, "comp_defs", None)
+        if defs is None:
+            defs = self.ctx.comp_defs = {}
+        defs.setdefault("COMP_" + digest, {"items": [([], t)], "events": [], "kind": "list"})
+        found = self.exists_over(app("COMP_" + digest, xs), False)
         res = []
         pr = p.assume(found)
         if self.feasible(pr):
@@ -1159,6 +1350,35 @@ class Exec:
             res.append(pn)
         self.ctx.closed_loops = getattr(self.ctx, "closed_loops", 0) + 1
         return res
+
+    def exists_over(self, seq, negated):
+        """any(COMP_d(xs)) is  EX_h(xs)  with h a digest of the simplified condition  "some collected value is truthy"  of one element;
+        all(COMP_d(xs)) is  Not EX_h'(xs)  for the condition "some collected value is falsy" (negated=True). So `not any(c(x) ...)` and
+        `all(not c(x) ...)` are one term. None unless seq is a closed form of a list comprehension without exceptional events."""
+        import hashlib
+        defs = getattr(self.ctx, "comp_defs", {})
+        if not (z3.is_app(seq) and seq.num_args() == 1 and seq.decl().name() in defs):
+            return None
+        d = defs[seq.decl().name()]
+        if d["kind"] != "list" or d["events"]:
+            return None
+        alts = []
+        for cs, t in d["items"]:
+            if t is None:
+                continue
+            tr = self._truth(t)
+            alts.append(z3.And(*(list(cs) + [z3.Not(tr) if negated else tr])))
+        f = z3.simplify(z3.Or(*alts)) if alts else z3.BoolVal(False)
+        h = hashlib.sha1(f.sexpr().encode()).hexdigest()[:14]
+        return pred("EX_" + h, seq.arg(0))
+
+    def _truth(self, t):
+        if z3.is_app(t) and t.decl().kind() == z3.Z3_OP_ITE and t.arg(1).eq(TRUE) and t.arg(2).eq(FALSE):
+            return t.arg(0)
+        return tobool(t)
+
+    def _closed_term(self, t):
+        return True
 
     def _mentions(self, t, c):
         if z3.is_const(t):
@@ -1190,6 +1410,13 @@ class Exec:
                 pass
         q = p.copy()
         rec.cin = self.havoc(q, rec.written, "cin%d" % rec.uid)
+        for k in rec.written:
+            if k.startswith("local:") and self.listy(rec.entry_vals.get(k), p) and self.only_list_methods(s, k[6:]):
+                rec.list_keys.add(k)
+                q.conds.append(pred("is_list", rec.cin[k]))
+            elif k.startswith("local:") and self.stringy(rec.entry_vals.get(k), p) and self.only_string_bindings(s, k[6:]):
+                rec.str_keys.add(k)
+                q.conds.append(pred("is_str", rec.cin[k]))
         rec.elem = fresh("elem%d" % rec.uid)
         q.conds.append(pred("elem_of", xs, rec.elem))
         q.conds.extend(self.ctx.elem_facts(xs, rec.elem))
@@ -1197,6 +1424,91 @@ class Exec:
         if key is not None:
             cache[key] = rec
         return self.after_loop(rec, p)
+
+    LIST_HEADS = ("nil_list", "list_app", "list_cat", "list_insert", "list_remove", "py_sorted", "list_of")
+
+    def listy(self, v, p):
+        """the value is a list by construction (display, comprehension, result of list methods) or by a fact on the path"""
+        if v is None:
+            return False
+        if isinstance(v, Tup):
+            return v.kind == "list"
+        if not z3.is_expr(v) or z3.is_bool(v) or z3.is_int(v):
+            return False
+        n = v.decl().name()
+        if n == "nil_list" or n.startswith(("COMP_", "py_sorted")) or n == "list_of":
+            return True
+        if n in ("list_app", "list_cat", "list_insert", "list_remove"):
+            return self.listy(v.arg(0), p)
+        if z3.is_const(v):
+            return any(z3.is_app(c) and c.decl().name() == "is_list" and c.arg(0).eq(v) for c in p.conds)
+        return False
+
+    def stringy(self, v, p):
+        if v is None:
+            return False
+        if isinstance(v, PyC):
+            return isinstance(v.v, str)
+        if not z3.is_expr(v) or z3.is_bool(v) or z3.is_int(v):
+            return False
+        if z3.is_const(v) and v.decl().kind() == z3.Z3_OP_UNINTERPRETED:
+            return any(z3.is_app(c) and c.decl().name() == "is_str" and c.arg(0).eq(v) for c in p.conds)
+        from .terms import STRING_HEADS
+        return v.decl().name() in STRING_HEADS or v.decl().name().startswith("py_format")
+
+    @staticmethod
+    def _string_expr(e):
+        """syntactically a string whatever the operands are"""
+        if isinstance(e, ast.Constant):
+            return isinstance(e.value, str)
+        if isinstance(e, ast.JoinedStr):
+            return True
+        if isinstance(e, ast.Call) and isinstance(e.func, ast.Name) and e.func.id in ("str", "repr"):
+            return True
+        if isinstance(e, ast.Call) and isinstance(e.func, ast.Attribute) and e.func.attr in ("format", "join") and Exec._string_expr(e.func.value):
+            return True
+        if isinstance(e, ast.Call) and isinstance(e.func, ast.Attribute) and e.func.attr in ("replace", "lower", "upper", "strip", "lstrip", "rstrip", "getText") \
+           and (e.func.attr == "getText" or Exec._string_expr(e.func.value)):
+            return True
+        if isinstance(e, ast.Subscript) and isinstance(e.slice, ast.Slice):
+            return Exec._string_expr(e.value)
+        if isinstance(e, ast.IfExp):
+            return Exec._string_expr(e.body) and Exec._string_expr(e.orelse)
+        return False
+
+    def only_string_bindings(self, s, name):
+        for n in ast.walk(ast.Module(body=list(s.body), type_ignores=[])):
+            if isinstance(n, (ast.FunctionDef, ast.Lambda, ast.Global, ast.Nonlocal)):
+                return False
+            if isinstance(n, ast.Assign) and any(isinstance(t, ast.Name) and t.id == name for t in n.targets):
+                if len(n.targets) != 1 or not self._string_expr(n.value):
+                    return False
+            elif isinstance(n, ast.Name) and n.id == name and isinstance(n.ctx, (ast.Store, ast.Del)):
+                # every Store must be the single target of one of the Assigns accepted above
+                ok = False
+                for m in ast.walk(ast.Module(body=list(s.body), type_ignores=[])):
+                    if isinstance(m, ast.Assign) and len(m.targets) == 1 and m.targets[0] is n:
+                        ok = True
+                if not ok:
+                    return False
+        for n in ast.walk(s.target):
+            if isinstance(n, ast.Name) and n.id == name:
+                return False
+        return True
+
+    def only_list_methods(self, s, name):
+        """the loop body never rebinds the local: it changes only through list methods (or `+=`, which extends a list in place)"""
+        aug = {id(n.target) for n in ast.walk(ast.Module(body=list(s.body), type_ignores=[]))
+               if isinstance(n, ast.AugAssign) and isinstance(n.op, ast.Add) and isinstance(n.target, ast.Name)}
+        for n in ast.walk(ast.Module(body=list(s.body), type_ignores=[])):
+            if isinstance(n, ast.Name) and n.id == name and isinstance(n.ctx, (ast.Store, ast.Del)) and id(n) not in aug:
+                return False
+            if isinstance(n, (ast.FunctionDef, ast.Lambda, ast.Global, ast.Nonlocal)):
+                return False
+        for n in ast.walk(s.target):
+            if isinstance(n, ast.Name) and n.id == name:
+                return False
+        return True
 
     def after_loop(self, rec, p):
         """continue after a summarised loop: written locations become the record's cout constants; early exits are forked"""
@@ -1209,6 +1521,10 @@ class Exec:
         has_raise = any(o.kind == "raise" or len(o.st.events) > rec.n_events for o in rec.body)
         q = p.copy()
         self.havoc(q, rec.written, "x", consts=rec.cout)
+        for k in sorted(rec.list_keys):
+            q.conds.append(pred("is_list", rec.cout[k]))
+        for k in sorted(rec.str_keys):
+            q.conds.append(pred("is_str", rec.cout[k]))
         for k in rec.written:
             self.note_write(k)
         q.loops.append(rec)
